@@ -1,6 +1,6 @@
 \* two subscriptions (heads + events) on two connections as coded: unsubscribe ownership, close, independence
 CONSTANTS NSubs = 2 NConn = 2 InitLen = 2 MaxLen = 3 MaxTag = 3 MaxReverts = 1 MaxL1 = 0 MaxPc = 0 MaxTx = 1 MaxGw = 0 MaxRecv = 0 MaxTicks = 0 MaxBack = 3 MaxGot = 6
-  Ver = 10 Kinds <- KHE StartAtL1 = 0 NoLag = FALSE QuietSub = FALSE ReorgPrio = FALSE TeeStage = FALSE Window = FALSE FixL1None = FALSE BlockIds <- BidsLatest
+  Ver = 10 Kinds <- KHE StartAtL1 = 0 NoLag = FALSE QuietSub = FALSE ReorgPrio = FALSE TeeStage = FALSE Window = FALSE FixL1None = FALSE FixL1Order = FALSE BlockIds <- BidsLatest
 INIT Init
 NEXT Next
 VIEW view
